@@ -784,3 +784,170 @@ theorem handle_facts (spec : Path → Bool) (cfg : Cfg) (g : G) (msg : String) (
     exact CallFacts.refl' spec tb g .ok (by simp)
 
 end Git
+
+namespace Git
+
+/-! ## `git_checkout_ref` (`--from-ref`) -/
+
+/-- the tree `--from-ref r` switches to (HEAD's own tree when `r` does not exist) -/
+def targetTree (g : G) (r : String) : Tree :=
+  match lookupRef g.refs r with
+  | some c => g.treeOf c
+  | none => g.headTree
+
+/-- the state after a successful `git checkout r` (branch `r` at commit `c`) -/
+def checkoutState (g : G) (r : String) (c : Nat) : G :=
+  { g with head := .branch r,
+           index := Tree.pick (fun p => g.headTree.find? p != (g.treeOf c).find? p) (g.treeOf c) g.index,
+           wt := Tree.pick (fun p => g.headTree.find? p != (g.treeOf c).find? p) (g.treeOf c) g.wt }
+
+theorem checkout_ok (g : G) (r : String) (c : Nat) (hr : lookupRef g.refs r = some c)
+    (h : ∀ p, g.headTree.find? p ≠ (g.treeOf c).find? p →
+      g.index.find? p = g.headTree.find? p ∧ g.wt.find? p = g.headTree.find? p) :
+    gitCheckout g r = .ok (checkoutState g r c) := by
+  unfold gitCheckout
+  simp only [hr]
+  have h2 : (Tree.diffNames g.headTree (g.treeOf c)).all (fun p =>
+      g.index.find? p == g.headTree.find? p && g.wt.find? p == g.headTree.find? p) = true := by
+    apply List.all_eq_true.mpr
+    intro p hp
+    have := h p ((Tree.mem_diffNames _ _ _).mp hp)
+    simp [this.1, this.2]
+  simp [h2, checkoutState]
+
+theorem checkoutState_headTree (g : G) (r : String) (c : Nat) (hr : lookupRef g.refs r = some c) :
+    (checkoutState g r c).headTree = g.treeOf c := by
+  simp [checkoutState, G.headTree, G.headCommit, hr, G.treeOf]
+
+/-- What `git_checkout_ref` (patched) guarantees: if the paths on which the two refs differ carry no
+    user change, the checkout stays inside the fragment; stash, commits and refs are unchanged,
+    HEAD is the old one or branch `r`, and every path on which the two trees agree keeps its index
+    entry and its work-tree file — the user's staged changes are staged again afterwards. -/
+theorem checkoutRef_facts (g : G) (r : String) (hm : NoMixed g)
+    (hfree : ∀ p, (targetTree g r).find? p ≠ g.headTree.find? p →
+      g.index.find? p = g.headTree.find? p ∧ g.wt.find? p = g.headTree.find? p) :
+    (gitCheckoutRef g r).status ≠ .outside ∧
+    (gitCheckoutRef g r).g.stash = g.stash ∧ (gitCheckoutRef g r).g.commits = g.commits ∧
+    (gitCheckoutRef g r).g.refs = g.refs ∧
+    ((gitCheckoutRef g r).g.head = g.head ∨ (gitCheckoutRef g r).g.head = .branch r) ∧
+    (lookupRef g.refs r = none → (gitCheckoutRef g r).g.head = g.head ∧ (gitCheckoutRef g r).status = .gitError) ∧
+    ∀ p, (targetTree g r).find? p = g.headTree.find? p →
+      (gitCheckoutRef g r).g.index.find? p = g.index.find? p ∧
+      (gitCheckoutRef g r).g.wt.find? p = g.wt.find? p := by
+  by_cases hst : diffCached g = []
+  · -- nothing staged
+    cases hr : lookupRef g.refs r with
+    | none =>
+      have hcof : gitCheckout g r = .fail := by
+        unfold gitCheckout
+        simp [hr]
+      have hres : gitCheckoutRef g r = ⟨g, .gitError⟩ := by
+        unfold gitCheckoutRef stashUserStagedFiles
+        simp [hst, hcof]
+      rw [hres]
+      exact ⟨by simp, rfl, rfl, rfl, Or.inl rfl, fun _ => ⟨rfl, rfl⟩, fun _ _ => ⟨rfl, rfl⟩⟩
+    | some c =>
+      have ht : targetTree g r = g.treeOf c := by simp [targetTree, hr]
+      have hco := checkout_ok g r c hr (fun p hp => hfree p (by rw [ht]; exact fun e => hp e.symm))
+      have hres : gitCheckoutRef g r = ⟨checkoutState g r c, .ok⟩ := by
+        unfold gitCheckoutRef stashUserStagedFiles
+        simp [hst, hco]
+      rw [hres]
+      refine ⟨by simp, rfl, rfl, rfl, Or.inr rfl, fun h => by simp at h, ?_⟩
+      intro p hp
+      rw [ht] at hp
+      simp [checkoutState, hp]
+  · rcases push_cases g hm with hpush | hpush
+    · let e : Stash := ⟨"xvc", g.headTree, g.index⟩
+      have hW1 : ∀ p, g.headTree.find? p ≠ g.index.find? p → (pushState g).wt.find? p = g.headTree.find? p := by
+        intro p hp; rw [pushState_wt]; simp [hp]
+      have hW1' : ∀ p, g.headTree.find? p = g.index.find? p → (pushState g).wt.find? p = g.wt.find? p := by
+        intro p hp; rw [pushState_wt]; simp [hp]
+      cases hr : lookupRef g.refs r with
+      | none =>
+        -- the checkout fails; the stash is popped all the same
+        have hpop : stashPopIndex (pushState g) = .ok (popState (pushState g) e g.stash) := by
+          apply pop_ok (pushState g) e g.stash rfl (fun _ => rfl)
+          intro p hp
+          exact ⟨rfl, hW1 p hp⟩
+        have hcof : gitCheckout (pushState g) r = .fail := by
+          unfold gitCheckout
+          simp [hr]
+        have hres : gitCheckoutRef g r = ⟨popState (pushState g) e g.stash, .gitError⟩ := by
+          unfold gitCheckoutRef stashUserStagedFiles
+          simp [hst, hpush, hcof, hpop]
+        rw [hres]
+        refine ⟨by simp, rfl, rfl, rfl, Or.inl rfl, fun _ => ⟨rfl, rfl⟩, ?_⟩
+        intro p _
+        rw [popState_index, popState_wt]
+        by_cases hc : g.headTree.find? p = g.index.find? p
+        · have : ¬ e.base.find? p ≠ e.idx.find? p := by simpa [e] using hc
+          rw [if_neg this, if_neg this]
+          exact ⟨hc, hW1' p hc⟩
+        · have : e.base.find? p ≠ e.idx.find? p := hc
+          rw [if_pos this, if_pos this]
+          exact ⟨rfl, (hm p hc).symm⟩
+      | some c =>
+        have ht : targetTree g r = g.treeOf c := by simp [targetTree, hr]
+        have hr' : lookupRef (pushState g).refs r = some c := hr
+        have htree : (pushState g).treeOf c = g.treeOf c := rfl
+        have hco : gitCheckout (pushState g) r = .ok (checkoutState (pushState g) r c) := by
+          apply checkout_ok (pushState g) r c hr'
+          intro p hp
+          rw [pushState_headTree, htree] at hp
+          refine ⟨rfl, ?_⟩
+          rw [pushState_headTree]
+          by_cases hc : g.headTree.find? p = g.index.find? p
+          · rw [hW1' p hc]
+            exact (hfree p (by rw [ht]; exact fun e => hp e.symm)).2
+          · exact hW1 p hc
+        have hHT2 : (checkoutState (pushState g) r c).headTree = g.treeOf c :=
+          checkoutState_headTree (pushState g) r c hr'
+        have hI2 : ∀ p, (checkoutState (pushState g) r c).index.find? p = (g.treeOf c).find? p := by
+          intro p
+          simp only [checkoutState, Tree.find?_pick, pushState_headTree, pushState_index, htree]
+          by_cases h : g.headTree.find? p = (g.treeOf c).find? p
+          · simp [h]
+          · simp [h]
+        have hW2 : ∀ p, g.headTree.find? p = (g.treeOf c).find? p →
+            (checkoutState (pushState g) r c).wt.find? p = (pushState g).wt.find? p := by
+          intro p h
+          simp only [checkoutState, Tree.find?_pick, pushState_headTree, htree]
+          simp [h]
+        -- a path the user staged is a path on which the two refs agree
+        have hagree : ∀ p, g.headTree.find? p ≠ g.index.find? p → (g.treeOf c).find? p = g.headTree.find? p := by
+          intro p hp
+          by_cases h : (g.treeOf c).find? p = g.headTree.find? p
+          · exact h
+          · exact absurd (hfree p (by rw [ht]; exact h)).1.symm hp
+        have hpop : stashPopIndex (checkoutState (pushState g) r c) =
+            .ok (popState (checkoutState (pushState g) r c) e g.stash) := by
+          apply pop_ok _ e g.stash rfl (fun p => by rw [hHT2, hI2])
+          intro p hp
+          have hp' : g.headTree.find? p ≠ g.index.find? p := hp
+          refine ⟨by rw [hHT2]; exact hagree p hp', ?_⟩
+          rw [hW2 p (hagree p hp').symm]
+          exact hW1 p hp'
+        have hres : gitCheckoutRef g r =
+            ⟨popState (checkoutState (pushState g) r c) e g.stash, .ok⟩ := by
+          unfold gitCheckoutRef stashUserStagedFiles
+          simp [hst, hpush, hco, hpop]
+        rw [hres]
+        refine ⟨by simp, rfl, rfl, rfl, Or.inr rfl, fun h => by simp at h, ?_⟩
+        intro p hp
+        rw [ht] at hp
+        rw [popState_index, popState_wt]
+        by_cases hc : g.headTree.find? p = g.index.find? p
+        · have : ¬ e.base.find? p ≠ e.idx.find? p := by simpa [e] using hc
+          rw [if_neg this, if_neg this, hI2, hW2 p hp.symm]
+          exact ⟨by rw [hp, hc], hW1' p hc⟩
+        · have : e.base.find? p ≠ e.idx.find? p := hc
+          rw [if_pos this, if_pos this]
+          exact ⟨rfl, (hm p hc).symm⟩
+    · have hres : gitCheckoutRef g r = ⟨g, .gitError⟩ := by
+        unfold gitCheckoutRef stashUserStagedFiles
+        simp [hst, hpush]
+      rw [hres]
+      refine ⟨by simp, rfl, rfl, rfl, Or.inl rfl, fun _ => ⟨rfl, rfl⟩, fun _ _ => ⟨rfl, rfl⟩⟩
+
+end Git
